@@ -177,6 +177,54 @@ def s05_tables(ctx):
     return res
 
 
+def s05_generated(ctx):
+    """translator validation: the REGENERATED node-table and branch-label loops (compiled into gen_c05, exact geometry) vs the real
+    functions on the same adversarial branch lists"""
+    import_fractopo()
+    res = StreamResult("S05-generated", rule="regenerated node_identity / node_identities_from_branches / get_branch_identities (Lean, compiled, exact rational "
+                       "geometry for the parameters) vs the real functions on the S05 case generator; node order, classes and labels compared; crisp cases only; "
+                       "non-trivial = node of degree >= 3 or an E-node")
+    if ctx.gen is None:
+        res.note = "gen_c05 not built (a generated module is broken): skipped"
+        res.skipped["generated_driver_not_built"] = 1
+        return res
+    rng = rng_for(ctx.seed, "S05g")
+    cases = []
+    for i in range(budget(ctx.tier, 200, 4000)):
+        t = rng.choice([0.001, 0.01, 0.0001, 0.1])
+        branches, areas, kind = gen_case(rng, t)
+        if branches:
+            cases.append((branches, areas, t, kind))
+    reqs = [_model_req(b, a, t).replace("topo ", "gentopo ", 1) for b, a, t, _ in cases]
+    crisp_resps = ctx.driver.parallel([_model_req(b, a, t) for b, a, t, _ in cases])
+    resps = ctx.gen.parallel(reqs)
+    for (branches, areas, t, kind), req, resp, cr in zip(cases, reqs, resps, crisp_resps):
+        res.evaluations += 1
+        if parse_resp(cr).get("crisp") != "1":
+            res.skipped["non_crisp"] = res.skipped.get("non_crisp", 0) + 1
+            continue
+        r = parse_resp(resp)
+        gnodes = []
+        if r.get("nodes"):
+            for tok in r["nodes"].split(";"):
+                p, c = tok.rsplit(":", 1)
+                gnodes.append((parse_pt(p), c))
+        glabels = [dec(x) for x in r["labels"].split(";")] if r.get("labels") else []
+        try:
+            inodes, ilabels = _impl_topo(branches, areas, t)
+        except Exception as e:  # noqa: BLE001
+            res.skipped["impl_raised"] = res.skipped.get("impl_raised", 0) + 1
+            continue
+        if any(c in ("Y", "X", "E") for _, c in inodes):
+            res.nontrivial += 1
+        if gnodes != inodes or glabels != ilabels:
+            res.disagreements.append(Disagreement("S05-generated", {"stream": "S05-generated", "request": req, "areas": kind}, {"nodes": [(str(p), c) for p, c in gnodes], "labels": glabels},
+                                                  {"nodes": [(str(p), c) for p, c in inodes], "labels": ilabels}, None,
+                                                  "regenerated loops (Lean) and the Python functions disagree: translator / prelude semantics or a parameter law"))
+    res.samples = [{"request": reqs[0][:200], "response": resps[0][:200]}] if reqs else []
+    return res
+
+
 def s05_branch_identity(ctx):
     """exhaustive small scope for the pure labelling function and the degree map"""
     import_fractopo()
@@ -198,11 +246,14 @@ def s05_branch_identity(ctx):
     return res
 
 
-STREAMS = [s05_branch_identity, s05_tables]
+STREAMS = [s05_branch_identity, s05_tables, s05_generated]
 
 
 def replay(ctx, stream, case):
     import_fractopo()
+    if stream == "S05-generated":
+        r = s05_generated(ctx)
+        return r.disagreements[0] if r.disagreements else None
     if stream == "S05-identity":
         from fractopo.branches_and_nodes import determine_branch_identity
 
